@@ -398,7 +398,8 @@ fn run_case(seed: u64, idx: usize, bin: &str, rt: &std::sync::Arc<tokio::runtime
                     let r = cl.search(req);
                     answered!("Search", r);
                     if let Ok(x) = &r {
-                        if NON_FINITE.contains(&vclass) || vclass == "empty" || k == 0 || k > 1000 || ef > 10_000 {
+                        let wrong_dim = matches!(vclass, "dim-4096" | "dim-4097" | "dim-minus-1" | "dim-plus-1");
+                        if NON_FINITE.contains(&vclass) || vclass == "empty" || wrong_dim || k == 0 || k > 1000 || ef > 10_000 {
                             viol!("invalid-search-answered-with-results", "step {}: Search(k {}, ef {}, {} query) returned {} results instead of a refusal", step, k, ef, vclass, x.results.len());
                         }
                     }
@@ -528,6 +529,92 @@ fn run_case(seed: u64, idx: usize, bin: &str, rt: &std::sync::Arc<tokio::runtime
             answered!("Health", r);
             if r.is_err() {
                 viol!("health-unanswered", "step {}: Health failed after the requests above: {:?}", step, r.err().map(|e| e.to_string()));
+            }
+        }
+    }
+    // concurrent phase: a second connection writes (far-away ids) while this connection sends malformed
+    // and valid requests; every one of them must still be answered (a request that wedges the server
+    // against a concurrent writer shows as a 60 s deadline = no-answer)
+    {
+        let stop = std::sync::Arc::new(std::sync::atomic::AtomicBool::new(false));
+        let writer = srv.tenant_client(who).ok().map(|mut c2| {
+            let stop = stop.clone();
+            let mut wr = Rng::derive(seed, idx as u64, 0xC15_2);
+            std::thread::spawn(move || {
+                let mut n = 0u64;
+                while !stop.load(std::sync::atomic::Ordering::SeqCst) && n < 4000 {
+                    let v = gen_unit_vec(&mut wr, DIM);
+                    let _ = c2.insert(3_000_000 + n % 16, v, HashMap::new(), "");
+                    n += 1;
+                }
+                n
+            })
+        });
+        let shapes = enum_filter_shapes();
+        for w in 0..30usize {
+            let f = shapes[(idx * 31 + w * 7) % shapes.len()].clone();
+            history.push(json!({"rpc":"concurrent-phase","w":w,"shape":format!("{:?}", f).chars().take(160).collect::<String>()}));
+            match w % 3 {
+                0 => {
+                    let r = cl.batch_delete_filter(f, "");
+                    answered!("BatchDelete(filter shape, concurrent writer)", r);
+                    if let Ok(x) = &r {
+                        if x.deleted_count > 0 {
+                            let ids_now: Vec<u64> = model.keys().copied().collect();
+                            for i in ids_now {
+                                if let Ok(q) = cl.query(i, false, "") {
+                                    if !q.found {
+                                        model.remove(&i);
+                                    }
+                                }
+                            }
+                        }
+                    }
+                }
+                1 => {
+                    let r = cl.search(SearchRequest { query_embedding: gen_unit_vec(&mut rng, DIM), k: 3, filter: Some(f), ..Default::default() });
+                    answered!("Search(filter shape, concurrent writer)", r);
+                }
+                _ => {
+                    let r = cl.update_metadata(*rng.pick(&ids), tag(&format!("c{}", w)), true, "");
+                    answered!("UpdateMetadata(concurrent writer)", r);
+                    if let Ok(x) = &r {
+                        if x.success && x.existed {
+                            // learn: merge of {"tag": ...}
+                        }
+                    }
+                }
+            }
+        }
+        stop.store(true, std::sync::atomic::Ordering::SeqCst);
+        if let Some(h) = writer {
+            let _ = h.join();
+        }
+        // metadata merges above: re-learn the tags of live model documents from the server (content of
+        // valid requests is not this phase's subject; the census below still checks ids and vectors)
+        let ids_now: Vec<u64> = model.keys().copied().collect();
+        for i in ids_now {
+            if let Ok(q) = cl.query(i, false, "") {
+                if q.found {
+                    if let Some(d) = model.get_mut(&i) {
+                        d.meta = q.metadata.iter().filter(|(k, _)| !k.starts_with("__")).map(|(k, v)| (k.clone(), v.clone())).collect();
+                    }
+                }
+            }
+        }
+    }
+    // search sanity: the server "keeps serving later requests": a valid Search for a live document's own
+    // vector finds that document (a breaker opened by earlier invalid requests would return nothing)
+    {
+        let live: Vec<(u64, Vec<f32>)> = model.iter().filter(|(_, d)| d.vec.iter().all(|x| x.is_finite()) && d.vec.iter().any(|x| *x != 0.0) && d.vec.iter().all(|x| x.abs() < 1e18)).map(|(i, d)| (*i, d.vec.clone())).take(3).collect();
+        for (id, v) in live {
+            history.push(json!({"rpc":"Search(sanity)","id":id.to_string()}));
+            let r = cl.search(SearchRequest { query_embedding: v.clone(), k: 10, ..Default::default() });
+            answered!("Search(sanity)", r);
+            if let Ok(x) = &r {
+                if !x.results.iter().any(|h| h.doc_id == id) {
+                    viol!("valid-search-no-longer-served", "after the request history a valid Search(k=10) for the stored vector of live document {} returns {:?} (of {} live documents)", id, x.results.iter().map(|h| h.doc_id).collect::<Vec<_>>(), model.len());
+                }
             }
         }
     }
